@@ -80,8 +80,9 @@ impl File {
     /// Returns a handle to the new file.
     /// # Errors
     /// Os errors relating to file access
-    #[expect(clippy::cast_sign_loss, clippy::cast_possible_truncation)]
     pub fn copy(&self, dest: &UnixStr) -> Result<Self> {
+        // As much as the kernel takes in one go
+        const CHUNK: usize = 0x7fff_f000;
         let this_metadata = self.metadata()?;
         let dest = OpenOptions::new()
             .create(true)
@@ -89,22 +90,21 @@ impl File {
             .truncate(true)
             .mode(this_metadata.mode())
             .open(dest)?;
+        // Copy until the source has nothing more to give, not what its metadata says its size is,
+        // there are files that report a size of 0 and still have content
         let mut offset = 0;
-        // We don't have to care about sign loss on the st_size, it's always positive.
-        let mut remaining = this_metadata.0.st_size as u64 - offset;
-        while remaining > 0 {
+        loop {
             let w = rusl::unistd::copy_file_range(
                 self.as_raw_fd(),
                 offset,
                 dest.as_raw_fd(),
                 offset,
-                remaining as usize,
+                CHUNK,
             )?;
             if w == 0 {
-                return Ok(dest);
+                break;
             }
             offset += w as u64;
-            remaining = this_metadata.0.st_size as u64 - offset;
         }
         Ok(dest)
     }
